@@ -40,7 +40,7 @@ type lk struct {
 func coin(d string, a osmomath.Int) sdk.Coin { return sdk.NewCoin(d, a) }
 
 func TestPropSuperfluid(t *testing.T) {
-	drv.Check(t, drv.Cfg{Name: "superfluid", Rule: rule, Quick: 150, Thorough: 8000, Steps: 30, TSteps: 60}, func(rt *rapid.T, cs *drv.Case) {
+	drv.Check(t, drv.Cfg{Name: "superfluid", Rule: rule, Quick: 150, Thorough: 5000, Steps: 30, TSteps: 60}, func(rt *rapid.T, cs *drv.Case) {
 		c := chain.New(t)
 		sk, sfk, lkk := c.App.StakingKeeper, c.App.SuperfluidKeeper, c.App.LockupKeeper
 		bond, _ := sk.BondDenom(c.Ctx)
